@@ -178,6 +178,23 @@ class USym(UBase):
         self.records.append((label, st, None, kn))
         return st
 
+    def zstr(self, name):
+        """unbounded-length string input in z3's string theory (returns the z3 term)"""
+        v = z3.String(name)
+
+        class _D:
+            def from_model(self_, m):
+                if m is None:
+                    return []
+                s = m.eval(v, model_completion=True).as_string()
+                # z3 prints non-ASCII as \\u{..}
+                import re as _re
+                s = _re.sub(r"\\u\{([0-9a-fA-F]+)\}", lambda mm: chr(int(mm.group(1), 16)), s)
+                return [ord(c) for c in s]
+
+        ctx().inputs[name] = _D()
+        return v
+
     def lemma(self, label, build):
         """pure logic obligation: build(z3) returns a closed z3 formula that must be valid"""
         st = ctx().prove("lemma: " + label, build(z3))
@@ -313,6 +330,10 @@ class UConc(UBase):
 
     def lemma(self, label, build):
         pass
+
+    def zstr(self, name):
+        return self.str(name, self.rng.randint(0, 16)) if not (self.given and name in self.given) \
+            else self.str(name, len(self.given[name]))
 
     def fail(self, label, **show):
         return self.ensures(label, False, **show)
